@@ -150,3 +150,54 @@ class OverlapScreenedBlock:
         with bind.patched((ov, "is_integral_screened", stub2)):
             ov.Overlap.construct_array_contraction(s1, s2)
         M.true("screened_block/default-is-none", calls == [None], str(calls))
+
+
+class IsScreenedAnyK:
+    """UNBOUNDED in the number of primitives: the built-in `min` is replaced by its contract inside the module
+    (min(seq) returns some element of seq that is <= every element: here an opaque positive symbol per shell), so
+    the verdict does not depend on how many primitives the shells have:
+        screened  <=>  |R2 - R1|^2 * a_min * b_min > -(a_min + b_min) ln eps          (0 < eps < 1)"""
+
+    function = "gbasis.integrals.overlap.is_integral_screened (any number of primitives)"
+
+    def shapes(self, tier):
+        return [dict(K=[3, 5])]
+
+    def run(self, shape, M):
+        ov = M.mods["gbasis.integrals.overlap"]
+        Ka, Kb = shape["K"]
+        A, B = M.vec("A", 3), M.vec("B", 3)
+        s1, s2 = _shell(M, "p", 0, Ka, 1, A), _shell(M, "q", 1, Kb, 1, B)
+        amin, bmin = M.pos("amin"), M.pos("bmin")
+        eps = M.pos("eps")
+        calls = []
+
+        def min_contract(seq):
+            calls.append(seq)
+            if seq is s1.exps:
+                return amin
+            if seq is s2.exps:
+                return bmin
+            raise AssertionError("min() called on something that is not the exponent array of one of the two shells")
+
+        def body():
+            del calls[:]
+            with bind.patched((ov, "min", min_contract)):
+                return ov.is_integral_screened(s1, s2, M.scalar(eps))
+
+        paths = M.paths(body, assumptions=[M.atom(eps, "<", 1)] if M.symbolic else ())
+        M.true("screened_anyK/pre@min", len(calls) == 2 and calls[0] is s1.exps and calls[1] is s2.exps, "smallest exponent of each shell requested")
+        sA, sB = M.to_spec(A), M.to_spec(B)
+        sa, sb = (M.to_spec(amin), M.to_spec(bmin)) if not M.symbolic else (amin, bmin)
+        seps = M.to_spec(eps) if not M.symbolic else eps
+        L = M.SF.log(seps)
+        R2 = M.SF.num(0)
+        for x in range(3):
+            R2 = R2 + (sB[x] - sA[x]) * (sB[x] - sA[x])
+        spec_true = M.atom(R2 * sa * sb, ">", -(sa + sb) * L)
+        for k, p in enumerate(paths):
+            pn = "screened_anyK/path%d" % k
+            M.feasible(pn + "/feasible", p)
+            M.true(pn + "/no-exception", p.exc is None, repr(p.exc))
+            if p.exc is None:
+                M.implies(pn + "/follows-documented-cutoff", p, spec_true if bool(p.outcome) else M.f_not(spec_true), "returned %s" % bool(p.outcome))
